@@ -186,6 +186,15 @@ func genC03(seed uint64, run int, tier string) Scenario {
 		sc.Ops = append(sc.Ops, op)
 		sc.Server.Replies = append(sc.Server.Replies, peer.NCReply{Mode: "now", Payload: `<rpc-reply xmlns="urn:ietf:params:xml:ns:netconf:base:1.0" message-id="{MID}"><rpc-error><error-type>application</error-type><error-tag>operation-failed</error-tag><error-severity>error</error-severity></rpc-error></rpc-reply>`})
 	}
+	if sc.Server.Echo && sc.ReadSize < 256 {
+		// (tens of kilobytes of echo in reads of a byte or seven, with the reply poller turning
+		// every 5 us of fake time, is a run that costs minutes and adds nothing to smaller ones)
+		for _, o := range sc.Ops {
+			if len(o.B) > 4096 {
+				sc.ReadSize = 1024
+			}
+		}
+	}
 	nreq := len(sc.Ops)
 	sc.Ops = append(sc.Ops, NCOp{Kind: "close"})
 	sc.Class = "encode/" + ver
